@@ -292,13 +292,13 @@ mod server {
                             ast::Rule::ErrorType { .. } => out.push_str(" | errortype"),
                             ast::Rule::RuleOrBinding(rb) => {
                                 out.push_str(" |");
-                                show_rb(rb, &mut out);
+                                show_rb(rb, &table, &mut out);
                             }
                             ast::Rule::RuleSet { name, rules } => {
                                 write!(out, " | ruleset {} {{", name).unwrap();
                                 for rb in rules {
                                     out.push_str(" |");
-                                    show_rb(rb, &mut out);
+                                    show_rb(rb, &table, &mut out);
                                 }
                                 out.push_str(" | }");
                             }
@@ -312,7 +312,7 @@ mod server {
         res.unwrap_or_else(|_| String::from("PANIC"))
     }
 
-    fn show_rb(rb: &ast::RuleOrBinding, out: &mut String) {
+    fn show_rb(rb: &ast::RuleOrBinding, table: &SemanticActionTable, out: &mut String) {
         match rb {
             ast::RuleOrBinding::Binding(b) => {
                 write!(out, " let {}", b.var.0).unwrap();
@@ -324,6 +324,18 @@ mod server {
                 if let Some(ctx) = &rule.lhs.right_ctx {
                     out.push_str(" ctx");
                     super::regex_to_string(ctx, out);
+                }
+                // the rule kind and the index of its right-hand side in the semantic action table
+                for (idx, rhs) in table.iter() {
+                    if idx == rule.rhs {
+                        let kind = match rhs {
+                            ast::RuleRhs::None => "none",
+                            ast::RuleRhs::Rhs { kind: ast::RuleKind::Simple, .. } => "simple",
+                            ast::RuleRhs::Rhs { kind: ast::RuleKind::Fallible, .. } => "fallible",
+                            ast::RuleRhs::Rhs { kind: ast::RuleKind::Infallible, .. } => "infallible",
+                        };
+                        write!(out, " kind {} rhs {}", kind, idx.as_usize()).unwrap();
+                    }
                 }
             }
         }
